@@ -508,7 +508,9 @@ func engExec(c *runCtx, ops []string) {
 				for i := range before { // stored with metadata: a lock protects what a metabase indexes
 					stored = stored || (before[i].holdsNoFault(t) && !before[i].mode.NoMetabase())
 				}
-				if stored && t >= 1 && t <= engNO {
+				// an object whose removal the engine acknowledged (tombstone, forced removal) and that nobody stored
+				// again is not "an object it stores", even while its bytes wait for the collector
+				if stored && t >= 1 && t <= engNO && !removedAck[t] {
 					locks = append(locks, lockRec{o.int("o"), t, o.int("exp")})
 				}
 			}
